@@ -9,7 +9,7 @@ from __future__ import annotations
 import ast
 
 from ..core import Rule, AnalysisError, norm
-from .. import pyfront
+from .. import pyfront, pyutil
 from . import dmdroles
 
 W = "DigitalMetadataWriter"
@@ -159,6 +159,58 @@ def r2_range_filter(repo=None, rid="C12.R2"):
             r.ok(site, "False only for files strictly between the first and the last file of the list")
         else:
             raise AnalysisError("%s: is_edge argument `%s` not recognised" % (q, norm(ast.unparse(arg))))
+    # the forward-fill look-back starts from the *requested* start: on every path to the look-back the range parameter handed to it
+    # (upper end of the candidate-file list, upper end of the edge filter) is the caller's value - assigned only as a default
+    # (`if <param> is None:`) or through int(); a start that was clamped, shifted or rounded first changes which sample is "the
+    # latest at or before the start" (clamped to the first sample, a look-back for a range that lies before all data returns a
+    # sample *after* the range)
+    fparams = [a.arg for a in f.args.args if a.arg != "self"]
+    g = rv.cfg()
+    lookbacks = []
+    for c in ast.walk(f):
+        if isinstance(c, ast.Call) and pyfront.call_name(c) == "self." + ro.filelist_name and len(c.args) >= 2:
+            in_ffill = any(isinstance(a, ast.If) and any(isinstance(x, ast.Name) and x.id == "method" for x in ast.walk(a.test))
+                           for a in _ancestors(rv, c))
+            if in_ffill:
+                lookbacks.append(c)
+    if not lookbacks:
+        raise AnalysisError("%s: the forward-fill candidate-file call (self.%s inside the branch on `method`) was not found" % (q, ro.filelist_name))
+    alias_env = pyutil.single_alias_env(f)
+    for c in lookbacks:
+        ref = pyutil.dealias(c.args[1], alias_env)      # the parameter of an inlined helper is a plain copy of the caller's argument
+        site = "%s:%s %s `%s`" % (m.rel, c.lineno, q, norm(ast.unparse(c))[:70])
+        if not (isinstance(ref, ast.Name) and ref.id in fparams):
+            r.violation(m.rel, q, norm(ast.unparse(c))[:80], "the forward-fill look-back does not end at the requested start (a range "
+                        "parameter of read) but at `%s`" % norm(ast.unparse(ref))[:40], line=c.lineno)
+            continue
+        cn = [n for n in g.nodes if any(x is c for x in pyfront.node_calls(n))]
+        if not cn:
+            raise AnalysisError("%s: look-back call not in the CFG" % q)
+        bad = None
+        for n in g.nodes:
+            a = n.ast
+            tgt = None
+            if isinstance(a, ast.Assign) and any(isinstance(t, ast.Name) and t.id == ref.id for t in a.targets):
+                tgt = a
+            elif isinstance(a, ast.AugAssign) and isinstance(a.target, ast.Name) and a.target.id == ref.id:
+                tgt = a
+            elif isinstance(a, ast.Assign) and any(isinstance(t, ast.Tuple) and any(isinstance(e, ast.Name) and e.id == ref.id for e in t.elts) for t in a.targets):
+                tgt = a
+            if tgt is None or cn[0].id not in g.reach([n.id], skip_labels=("exc",)) or n.id == cn[0].id:
+                continue
+            default = any(isinstance(x, ast.If) and norm(ast.unparse(x.test)) in ("%s is None" % ref.id,) for x in _ancestors(rv, tgt))
+            conv = isinstance(tgt, ast.Assign) and isinstance(tgt.value, ast.Call) and pyfront.call_name(tgt.value) in ("int", "np.uint64", "np.int64") \
+                and len(tgt.value.args) == 1 and isinstance(tgt.value.args[0], ast.Name) and tgt.value.args[0].id == ref.id
+            if not (default or conv):
+                bad = tgt
+                break
+        if bad is None:
+            r.ok(site, "the look-back ends at the caller's `%s` (only defaulted / converted before)" % ref.id)
+        else:
+            r.violation(m.rel, q, norm(ast.unparse(bad))[:80], "the requested start is altered before the forward-fill look-back uses it: the "
+                        "sample returned as 'latest at or before the start' is then taken relative to another index (clamped to the "
+                        "first sample written, a forward-fill read of a range lying before all data returns a sample after the range)",
+                        line=bad.lineno)
     # the filter itself: keys >= sample0 and keys <= sample1 under `if is_edge`
     am = ro.add_view.fn()
     p_lo, p_hi, p_edge = params[pos - 1], params[pos], params[pos + 1]
